@@ -58,7 +58,7 @@ try:
             meta["pinned_tests_run_at_base"] = meta["base_commit"]
         meta["checks"] = {}
         for pid in ids:
-            e = dict(os.environ, VERIF_REPO=dst, VERIF_NOEVIDENCE="1")
+            e = dict(os.environ, VERIF_REPO=dst, VERIF_NOEVIDENCE="1", VERIF_FAILFAST="1")
             p = subprocess.run(["/venv/bin/python", "-m", "fvmc.run", pid, "--tier", "quick"], cwd=VERIF, env=e, capture_output=True, text=True)
             viol = [l[:300] for l in p.stdout.splitlines() if l.startswith("VIOLATION")]
             meta["checks"][pid] = {"detected": p.returncode == 1 and bool(viol), "exit": p.returncode, "first_violation": viol[:2]}
